@@ -1276,6 +1276,33 @@ Proof.
     pose proof (pigeon (tmpl_apply pre post) keys (S (length keys)) (tmpl_apply_inj pre post) H). lia.
 Qed.
 
+Lemma pn_down_largest pre post keys : forall n r, pn_down n pre post keys = Ok r ->
+  exists k, (1 <= k <= N.of_nat n)%N /\ r = tmpl_apply pre post k /\
+    forall j, (k < j <= N.of_nat n)%N -> In (tmpl_apply pre post j) keys.
+Proof.
+  induction n as [|m IH]; intros r H; [discriminate|].
+  cbn [pn_down] in H. destruct (mem_str (tmpl_apply pre post (N.of_nat (S m))) keys) eqn:E.
+  - apply mem_str_In in E. destruct (IH r H) as [k [Hk [Hr Hj]]]. exists k. split; [lia|]. split; auto.
+    intros j Hjr. destruct (N.eq_dec j (N.of_nat (S m))) as [->|Hne]; auto. apply Hj. lia.
+  - exists (N.of_nat (S m)). split; [lia|]. split; [|intros j Hj; lia].
+    unfold packuri_new in H. destruct (tmpl_apply pre post (N.of_nat (S m))) as [|d t]; [discriminate|].
+    destruct (is_slash d); [congruence|discriminate].
+Qed.
+
+(** which one: the search starts one above the number of distinct part names that share the
+    prefix of the template and goes down; the answer is the first free candidate it meets *)
+Theorem partname_largest pre post names r :
+  next_partname pre post names = Ok r ->
+  exists k, (1 <= k <= N.of_nat (S (length (dedup (filter (starts_with (tmpl_prefix pre post)) names)))))%N /\
+    r = tmpl_apply pre post k /\
+    forall j, (k < j <= N.of_nat (S (length (dedup (filter (starts_with (tmpl_prefix pre post)) names)))))%N ->
+              In (tmpl_apply pre post j) names.
+Proof.
+  unfold next_partname. intros H. apply pn_down_largest in H as [k [Hk [Hr Hj]]].
+  exists k. split; auto. split; auto. intros j Hjr. specialize (Hj j Hjr).
+  apply (proj1 (dedup_In _ _)) in Hj. apply filter_In in Hj. tauto.
+Qed.
+
 Lemma partname_ok pre' post names :
   exists r, next_partname (c_slash :: pre') post names = Ok r.
 Proof.
@@ -1551,13 +1578,104 @@ Proof.
       * split; [apply (H3 _ _ Ej)|]. rewrite (H4 q Iq). auto.
 Qed.
 
-(** The name add_slide will use next is already taken exactly when an unlisted part
-    carries it. *)
-Theorem next_slide_partname_collision prels rIds targets names names' q :
+(** what the package holds once rename_slide_parts has returned is what it returned *)
+Lemma rename_effect_from_ok prels : forall rIds i names names',
+  rename_from i prels rIds names = Ok names' -> rename_effect_from i prels rIds names = names'.
+Proof.
+  induction rIds as [|r rs IH]; intros i names names' H; cbn [rename_from rename_effect_from] in *.
+  - congruence.
+  - destruct (lookup_rel r prels) as [p|]; [apply IH; exact H|discriminate].
+Qed.
+
+Theorem rename_effect_ok prels rIds names names' :
+  rename_slide_parts prels rIds names = Ok names' -> rename_effect prels rIds names = names'.
+Proof. apply rename_effect_from_ok. Qed.
+
+Lemma rename_effect_from_length prels : forall rIds i names,
+  length (rename_effect_from i prels rIds names) = length names.
+Proof.
+  induction rIds as [|r rs IH]; intros i names; cbn [rename_effect_from]; auto.
+  destruct (lookup_rel r prels) as [p|]; auto. rewrite IH. apply set_nth_length.
+Qed.
+
+(** a deck whose presentation part is related to two slide parts but lists only one: all
+    names distinct beforehand, two parts of one name after the first access of prs.slides *)
+Definition unlisted_witness_names : list str :=
+  [slide_name 2; slide_name 1].
+Definition unlisted_witness_prels : list (str * nat) := [(rId_name 1, O); (rId_name 2, 1%nat)].
+
+Theorem rename_unlisted_refuted :
+  exists prels rIds targets names names',
+    resolves prels rIds targets /\ NoDup targets /\ (forall p, In p targets -> (p < length names)%nat) /\
+    NoDup names /\ rename_slide_parts prels rIds names = Ok names' /\
+    exists p q s, p <> q /\ nth_error names' p = Some s /\ nth_error names' q = Some s.
+Proof.
+  exists unlisted_witness_prels, [rId_name 1], [O], unlisted_witness_names, [slide_name 1; slide_name 1].
+  split; [|split; [|split; [|split; [|split]]]].
+  - repeat constructor.
+  - repeat constructor. intros [].
+  - intros p [<-|[]]. simpl. lia.
+  - unfold unlisted_witness_names. constructor; [|constructor; [intros []|constructor]].
+    intros [H|[]]. apply slide_name_inj in H. discriminate.
+  - vm_compute. reflexivity.
+  - exists O, 1%nat, (slide_name 1). split; [discriminate|]. split; reflexivity.
+Qed.
+
+(* ============================================================================== *)
+(** * _next_slide_partname (as repaired by 086e8ef1) *)
+
+Lemma slide_name_packuri k : packuri_new (slide_name k) = Ok (slide_name k).
+Proof. reflexivity. Qed.
+
+(** For every number of p:sldId entries and every list of reachable part names: the call
+    does not raise, its result is a slide part name slideK.xml with K at least 1, no
+    reachable part carries it, and it is the conventional slide(n+1).xml whenever no
+    reachable part carries that one. *)
+Theorem next_slide_partname_spec n names :
+  exists k, (1 <= k)%N /\ next_slide_partname n names = Ok (slide_name k) /\
+            ~ In (slide_name k) names /\
+            (~ In (slide_name (N.of_nat n + 1)%N) names -> k = (N.of_nat n + 1)%N).
+Proof.
+  unfold next_slide_partname.
+  destruct (mem_str (slide_name (N.of_nat n + 1)%N) names) eqn:E.
+  - apply mem_str_In in E.
+    pose proof (partname_fresh s_slide_pre s_xml_post names) as H.
+    destruct (next_partname s_slide_pre s_xml_post names) as [r|e].
+    + destruct H as [Hf [k [Hk ->]]]. exists k. split; auto. split; [reflexivity|]. split; [exact Hf|].
+      intros Hn. contradiction.
+    + exfalso. destruct H as [_ H]. apply (H (tl s_slide_pre)). reflexivity.
+  - exists (N.of_nat n + 1)%N. split; [lia|]. split; [apply slide_name_packuri|]. split; [|auto].
+    intros Hin. apply mem_str_In in Hin. congruence.
+Qed.
+
+Corollary next_slide_partname_fresh n names r :
+  next_slide_partname n names = Ok r -> ~ In r names.
+Proof.
+  destruct (next_slide_partname_spec n names) as [k [_ [E [Hf _]]]]. rewrite E. intros [= <-]. exact Hf.
+Qed.
+
+Corollary next_slide_partname_conventional n names :
+  ~ In (slide_name (N.of_nat n + 1)%N) names ->
+  next_slide_partname n names = Ok (slide_name (N.of_nat n + 1)%N).
+Proof.
+  intros H. destruct (next_slide_partname_spec n names) as [k [_ [E [_ Hc]]]]. rewrite (Hc H) in E. exact E.
+Qed.
+
+(** when a reachable part carries the conventional name the answer is OpcPackage.next_partname's *)
+Theorem next_slide_partname_taken n names :
+  In (slide_name (N.of_nat n + 1)%N) names ->
+  next_slide_partname n names = next_partname s_slide_pre s_xml_post names.
+Proof.
+  intros H. unfold next_slide_partname. apply mem_str_In in H. rewrite H. reflexivity.
+Qed.
+
+(** after prs.slides the conventional name is taken exactly when a part that is not listed
+    carries it: the condition under which the package is searched *)
+Theorem next_slide_conventional_taken_iff prels rIds targets names names' q :
   resolves prels rIds targets -> NoDup targets -> (forall p, In p targets -> (p < length names)%nat) ->
   rename_slide_parts prels rIds names = Ok names' ->
-  (nth_error names' q = Some (next_slide_partname (length rIds)) <->
-   ~ In q targets /\ nth_error names q = Some (next_slide_partname (length rIds))).
+  (nth_error names' q = Some (slide_name (N.of_nat (length rIds) + 1)%N) <->
+   ~ In q targets /\ nth_error names q = Some (slide_name (N.of_nat (length rIds) + 1)%N)).
 Proof.
   intros Hres Hnd Hrange Hok.
   destruct (rename_listed prels rIds targets names Hres Hnd Hrange) as [n2 [E [HL [H3 [H4 H5]]]]].
@@ -1566,31 +1684,11 @@ Proof.
   split.
   - intros Hq. destruct (in_dec Nat.eq_dec q targets) as [Iq|Iq].
     + exfalso. apply In_nth_error in Iq as [j Hj]. rewrite (H3 _ _ Hj) in Hq.
-      unfold next_slide_partname in Hq.
       assert (Hs : slide_name (N.of_nat j + 1)%N = slide_name (N.of_nat (length rIds) + 1)%N) by congruence.
       apply slide_name_inj in Hs.
       assert (j < length targets)%nat by (apply nth_error_Some; congruence). lia.
     + split; auto. rewrite <- (H4 q Iq). auto.
   - intros [Iq Hq]. rewrite (H4 q Iq). auto.
-Qed.
-
-Definition unlisted_witness_names : list str :=
-  [slide_name 1; slide_name 2].
-Definition unlisted_witness_prels : list (str * nat) := [(rId_name 1, O); (rId_name 2, 1%nat)].
-
-(** a deck whose presentation part is related to two slide parts but lists only the first:
-    all names distinct, yet the next slide name is already in use *)
-Theorem slide_partname_unlisted_refuted :
-  exists prels rIds names names',
-    NoDup names /\ rename_slide_parts prels rIds names = Ok names' /\
-    In (next_slide_partname (length rIds)) names'.
-Proof.
-  exists unlisted_witness_prels, [rId_name 1], unlisted_witness_names, unlisted_witness_names.
-  split; [|split].
-  - unfold unlisted_witness_names. constructor; [|constructor; [intros []|constructor]].
-    intros [H|[]]. apply slide_name_inj in H. discriminate.
-  - vm_compute. reflexivity.
-  - vm_compute. right; left; reflexivity.
 Qed.
 
 Theorem rename_keyerr prels rIds names :
